@@ -186,3 +186,46 @@ def run(c, prog, R="C03.gram"):
         except sym.Unsupported as e:
             c.violation(R, "cannot-establish|UniqueId", f"encoder arm UniqueId: {e}", core.loc(earms["UniqueId"]["body"]), instance="gram:UniqueId:bytes")
     c.floor(R, n, 22, "documented layouts compared")
+
+
+def rule_examples(c, prog, R="C03.gram"):
+    """worked examples of docs/binary.md that can be decoded from the document's own prose: the Vector3int16 pair
+    (little-endian i16 triples, no interleaving) and the Position array of the two-CFrame example (three interleaved
+    arrays of Roblox-format floats).  They are the only test vectors an independent encoder has."""
+    import struct
+    doc = spec.type_ids("binary.md")
+    n = 0
+    # --- Vector3int16
+    body = doc.get("Vector3int16", (None, ""))[1]
+    m = re.search(r"values `(-?\d+), (-?\d+), (-?\d+)` and `(-?\d+), (-?\d+), (-?\d+)` are stored like this: `([0-9A-Fa-f ]+)`", body)
+    if m:
+        n += 1
+        want = [int(x) for x in m.groups()[:6]]
+        raw = bytes.fromhex(m.group(7).replace(" ", ""))
+        got = list(struct.unpack("<6h", raw)) if len(raw) == 12 else None
+        if got == want:
+            c.ok(R, "example:Vector3int16")
+        else:
+            c.violation(R, "example|Vector3int16", f"docs/binary.md, Vector3int16: the example stores `{', '.join(map(str, want[:3]))}` and `{', '.join(map(str, want[3:]))}` as `{m.group(7)}`, but read as the section describes them (little-endian i16, in sequence) those bytes are {got}; the values are `{' '.join(f'{b:02X}' for b in struct.pack('<6h', *want))}`", "docs/binary.md", instance="example:Vector3int16")
+    # --- CFrame: the Position array of the two-value example
+    body = doc.get("CFrame", (None, ""))[1]
+    mv = re.search(r"`CFrame\.new\((\d+), (\d+), (\d+)\)` and `CFrame\.new\((\d+), (\d+), (\d+)\)\*CFrame\.Angles", body)
+    mp = re.search(r"the `Position` array\) is: `([0-9A-Fa-f ]+)`", body)
+    if mv and mp:
+        n += 1
+        want = [float(x) for x in mv.groups()]
+        raw = bytes.fromhex(mp.group(1).replace(" ", ""))
+        got = None
+        if len(raw) == 24:
+            got = [None] * 6
+            for axis in range(3):
+                plane = raw[axis * 8:(axis + 1) * 8]
+                for i in range(2):
+                    word = (plane[i] << 24) | (plane[2 + i] << 16) | (plane[4 + i] << 8) | plane[6 + i]      # interleaved, big-endian
+                    bits = (word >> 1) | ((word & 1) << 31)                                                       # Roblox float: sign in the low bit
+                    got[i * 3 + axis] = struct.unpack(">f", struct.pack(">I", bits))[0]
+        if got == want:
+            c.ok(R, "example:CFrame-positions")
+        else:
+            c.violation(R, "example|CFrame-positions", f"docs/binary.md, CFrame: the two-value example gives positions {want[:3]} and {want[3:]}, but its Position array `{mp.group(1)}`, read as three interleaved arrays of Roblox-format floats, holds {got[:3] if got else None} and {got[3:] if got else None}", "docs/binary.md", instance="example:CFrame-positions")
+    c.floor(R, n, 2, "worked examples of docs/binary.md decoded from its own prose")
